@@ -55,6 +55,7 @@ def main() -> None:
     direct = []
     unavailable = {}
     samples = []
+    evaluated = []
     n_eval = 0
     for d in descs:
         key = json.dumps(d, sort_keys=True)
@@ -77,6 +78,7 @@ def main() -> None:
             n_eval += 1
             continue
         n_eval += 1
+        evaluated.append(d)
         if hasattr(mod, "direct_oracle"):
             msg = mod.direct_oracle(d, obs)
             if msg:
@@ -93,6 +95,40 @@ def main() -> None:
             per_kind.setdefault(d.get("_kind", "main"), []).append((d, obs, term))
         if len(samples) < 3:
             samples.append({"input": d, "observed": obs})
+
+    # repeat leg: a sample of the descriptors is run a second time at the end of the process, in reverse
+    # order, i.e. after every other case has had the chance to leave something behind in a cache, memo,
+    # default argument or module-level variable of the implementation.  The second observation goes through
+    # the same oracle and becomes one more Coq case, so a result that depends on what ran before shows up
+    # as a model mismatch with this input (marked _repeat) as the replay.
+    n_rep = 0
+    if not inputs_file and not getattr(mod, "NO_REPEAT", False):
+        cand = [d for d in evaluated if "pre" not in d and d.get("_kind") != "live"
+                and (not hasattr(mod, "repeatable") or mod.repeatable(d))]
+        want = int(os.environ.get("VERIF_REPEAT", "150" if tier == "quick" else "1000"))
+        stride = max(1, len(cand) // max(1, want))
+        for d in reversed(cand[::stride][:want]):
+            d2 = dict(d, _repeat=1)
+            dump_json(progress, {"current": d2, "n": n_eval})
+            try:
+                obs = mod.run_case(d)
+            except BaseException as ex:
+                if getattr(ex, "harness_only", False):
+                    continue
+                direct.append({"what": "exception escaped when this input was run a second time in the same process: " + repr(ex),
+                               "input": d2, "observed": {"harness_error": repr(ex), "traceback": traceback.format_exc()[-2000:]}})
+                n_eval += 1
+                continue
+            n_eval += 1
+            n_rep += 1
+            if hasattr(mod, "direct_oracle"):
+                msg = mod.direct_oracle(d, obs)
+                if msg:
+                    direct.append({"what": "(second run in the same process) " + msg, "input": d2, "observed": obs})
+            term = mod.coq_case(d, obs)
+            for t in (term if isinstance(term, list) else [term] if term is not None else []):
+                per_kind.setdefault(d.get("_kind", "main"), []).append((d2, obs, t))
+        dist["repeated_at_end_of_process"] = n_rep
 
     shard = getattr(mod, "SHARD", 250)
     files = []
